@@ -33,6 +33,9 @@
   (TopsimProofs/IngestLimit9.lean).  In SimPy's own order the telescope is resumed
   before the supervisors and the allocation processes of an instant, which is the
   hypothesis of `C08_ingest_limit_telescope_first`.
+
+  F14 (the repaired admission test counts the machines already promised): see
+  TopsimProps/C08Promised.lean — `C08_promised_covered_simpy`, `C08_no_provisioning_failure_simpy`.
 -/
 import TopsimProofs.IngestLimit23
 
